@@ -80,6 +80,14 @@ def _loop_var(test: ast.AST) -> Optional[Tuple[str, str]]:
     return None
 
 
+def q_inner_loop(outer: ast.AST, node: ast.AST) -> bool:
+    """is `node` inside a loop nested in `outer` (so that a continue does not target `outer`)."""
+    for n in ast.walk(outer):
+        if n is not outer and isinstance(n, (ast.For, ast.While)) and any(x is node for x in ast.walk(n)):
+            return True
+    return False
+
+
 def _every_iteration_passes(f: Func, loop: ast.While, nodes: List[ast.AST]) -> bool:
     cfg = cfg_of(f.node)
     tn = cfg.by_ast[loop]
@@ -93,6 +101,9 @@ def _every_iteration_passes(f: Func, loop: ast.While, nodes: List[ast.AST]) -> b
 def classify_while(ctx: Ctx, f: Func, loop: ast.While) -> Tuple[str, str]:
     """returns (variant id or '', explanation)."""
     test = loop.test
+    if getattr(loop, "_inlined_block", False) and loop.body and isinstance(loop.body[-1], ast.Break) and not any(
+            isinstance(x, ast.Continue) and not q_inner_loop(loop, x) for x in ast.walk(loop)):
+        return "V0", "single-pass block produced by helper inlining (ends in break, no continue)"
     body_nodes = [n for st in loop.body for n in walk(st)]
     # V3 / V4: while True
     if isinstance(test, ast.Constant) and test.value is True:
@@ -260,7 +271,7 @@ def r05_1(ctx: Ctx, closure: Dict[str, Func]) -> None:
                     continue
             ctx.check(bool(variant), "R05.1", f, loop, f"{fq}: while {norm(loop.test)} [{variant}] {why}", why,
                       construct=f"while {norm(loop.test)}", path=ctx.res.call_path(shared.read_roots(ctx), fq))
-    ctx.floor("R05.1", n, 5, "while loops in closure(read API)")
+    ctx.floor("R05.1", n, 3, "while loops in closure(read API)")
 
 
 # ------------------------------------------------------------------------------------------ R05.2
@@ -427,7 +438,7 @@ def r05_2(ctx: Ctx, closure: Dict[str, Func]) -> None:
                      f"{kind} bounded by a count read from the header ({norm(bound)}) with no consuming read per iteration and no comparison "
                      "with the remaining input: a few header bytes make the parser allocate/loop in proportion to the declared count",
                      construct=key, path=ctx.res.call_path(shared.read_roots(ctx), fq))
-    ctx.floor("R05.2", n_sites, 12, "attacker-sized bounds in the header readers")
+    ctx.floor("R05.2", n_sites, 8, "attacker-sized bounds in the header readers")
 
 
 # ------------------------------------------------------------------------------------------ R05.3
